@@ -122,10 +122,13 @@ def make_readers():
     A('todict(multi=True)', 'todict', 'multi=True', 'd.todict(multi=True)', lambda m, cn: m.todict(True))
     A('counts', 'counts', 'no argument', 'N(d.counts())', lambda m, cn: (cn, m.counts()))
     A('inverted', 'inverted', 'no argument', 'N(d.inverted())', lambda m, cn: (cn, m.inverted()))
-    A('sorted', 'sorted', 'default / reverse / key', '[R(lambda: N(d.sorted())), R(lambda: N(d.sorted(reverse=True))), '
-      'R(lambda: N(d.sorted(key=lambda i: repr(i[1]))))]',
+    A('sorted', 'sorted', 'default / reverse / key / reverse with tied sort keys (stability)',
+      '[R(lambda: N(d.sorted())), R(lambda: N(d.sorted(reverse=True))), '
+      'R(lambda: N(d.sorted(key=lambda i: repr(i[1])))), R(lambda: N(d.sorted(key=lambda i: 0, reverse=True))), '
+      'R(lambda: N(d.sorted(key=lambda i: repr(i[1]), reverse=True)))]',
       lambda m, cn: [R(lambda: (cn, m.sorted())), R(lambda: (cn, m.sorted(reverse=True))),
-                     R(lambda: (cn, m.sorted(key=lambda i: repr(i[1]))))])
+                     R(lambda: (cn, m.sorted(key=lambda i: repr(i[1])))), R(lambda: (cn, m.sorted(key=lambda i: 0, reverse=True))),
+                     R(lambda: (cn, m.sorted(key=lambda i: repr(i[1]), reverse=True)))])
     A('sortedvalues', 'sortedvalues', 'default / reverse', '[R(lambda: N(d.sortedvalues())), '
       'R(lambda: N(d.sortedvalues(reverse=True)))]',
       lambda m, cn: [R(lambda: (cn, m.sortedvalues())), R(lambda: (cn, m.sortedvalues(reverse=True)))])
